@@ -114,6 +114,7 @@ CHECKS["C12"] = {
         H("post", "c12.go", "VerifH_C12_post", ["read"], quick={"timeout": 200}),
         H("post", "c12.go", "VerifH_C12_post_bytes", ["accepted"], quick={"timeout": 200}),
         H(".", ["c12.go", "common.go"], "VerifH_C12_fontderived", ["read"], quick={"timeout": 280}),
+        H("glyf", "c12.go", "VerifH_C12_bboxpdf", ["done"], quick={"timeout": 280, "shards": 6}),
     ],
     "bounds": {"quick": "hmtx: 1..2 glyphs with symbolic int16 widths, extents and (optionally explicit) side bearings, vertical caret; arbitrary 36-byte hhea + <=8 byte hmtx; head: all fields symbolic (timestamps any int64 second or unset), arbitrary 54 bytes; maxp both versions, arbitrary <=32 bytes; OS/2: all fields symbolic (version 4), arbitrary tables of 68..100 bytes; post header: italic angle any 16.16 value, arbitrary 32..36 bytes; usFirstCharIndex / usLastCharIndex of the OS/2 table written by (*Font).Write for format 12 cmaps of 1..3 symbolic code points from any plane",
                "thorough": "hmtx 3 glyphs / 16 bytes"},
